@@ -2267,6 +2267,17 @@ def run(ctx):
     marks.append('R %.1f' % ctx.elapsed())
     sys.stderr.write('parts done at: %s\n' % ' '.join(marks))
 
+    # routing of function-like requests by the pilot scheduler while the
+    # master's queue registers on the control thread (shared with C04): every
+    # request reaches the master exactly once.  LAST: it leaves threads of the
+    # scheduler pair behind, and the parts above fork real processes.
+    from .c04 import raptor_race
+    rng_r = ctx.rng('rrace')
+    for i in range(ctx.n(480, 6400)):
+        raptor_race(ctx, res, rng_r, i)
+        if len(res.violations) > 20:
+            break
+
     return res
 
 
